@@ -117,7 +117,10 @@ def tsp_matrix(draw: Any, min_n: int = 2, max_n: int = 12,
     ``max_upper`` bounds the sum of the row maxima (C06: size of the FEA
     frequency table); classes that cannot respect it are replaced.
     """
-    n = draw(st.integers(min_n, max_n))
+    if max_n > 16 and draw(st.integers(0, 3)) != 0:
+        n = draw(st.integers(min_n, 16))  # large matrices are costly to draw
+    else:
+        n = draw(st.integers(min_n, max_n))
     if draw(st.integers(0, 3)) == 0:  # small sizes are where edge cases live
         n = draw(st.integers(min_n, min(max_n, min_n + 3)))
     kind = draw(st.sampled_from(kinds))
